@@ -651,6 +651,86 @@ Proof.
   apply ReserveInv_zero; [exists []; exact Hr0|exact Hc0].
 Qed.
 
+(* ---------- "stays valid until that entity is despawned" ---------- *)
+(* LV k w: the entity map is well formed and k is live.  Every delivery keeps it unless the delivered event is a
+   Despawn (the only built-in effect that removes an entity); handlers never change the entity map. *)
+Section Live.
+Variable k : key.
+Definition LV (w : world) : Prop := SmInv (w_ents w) /\ sm_get k (w_ents w) <> None.
+Lemma live_shape (m m' : smap eloc) : shape m' = shape m -> sm_get k m <> None -> sm_get k m' <> None.
+Proof.
+  intros Hs L. pose proof (shape_sget m m' (fst k) Hs) as X. unfold sm_get in *.
+  destruct (sget (slots m') (fst k)) as [s'|], (sget (slots m) (fst k)) as [s|]; try contradiction.
+  destruct X as (Eg & _ & Ev). rewrite Eg. destruct (gen s =? snd k); [|exact L]. intros Z. apply L. now apply Ev.
+Qed.
+Lemma LV_shape w w' : shape (w_ents w') = shape (w_ents w) -> LV w -> LV w'.
+Proof. intros Hs [A B]. split; [eapply sview_inv; eauto|eapply live_shape; eauto]. Qed.
+Lemma LV_eo w w' : eo w' = eo w -> LV w -> LV w'.
+Proof. intros H. apply LV_shape. exact (proj1 (eo_parts _ _ H)). Qed.
+Lemma LV_ents w w' : w_ents w' = w_ents w -> LV w -> LV w'.
+Proof. unfold LV. now intros ->. Qed.
+Lemma LV_insert f w k0 m' : LV w -> insert_with f (w_ents w) = Some (k0, m') -> LV (set_ents w m').
+Proof.
+  intros [A B] E. split; cbn [w_ents set_ents]; [eapply insert_inv; eauto|].
+  destruct (key_eq_dec k k0) as [->|Hne]; [rewrite (insert_get_new _ _ _ _ A E); discriminate|now rewrite (insert_get_other _ _ _ _ _ A E Hne)].
+Qed.
+Lemma spawn_all_n_LV n : forall w, LV w -> LV (res_world (spawn_all_n n w)).
+Proof.
+  induction n as [|n IH]; intros w HP; cbn [spawn_all_n]; [exact HP|].
+  destruct (insert_with (fun _ => (0, 0)) (w_ents w)) as [[k0 m0]|]; [|exact HP].
+  pose proof (r_arch_spawn w_ents ltac:(fr) ltac:(fr) w k0) as He. destruct (arch_spawn w k0) as [loc w1]. cbn [snd] in He.
+  assert (HP1 : LV w1) by (eapply LV_ents; eauto).
+  destruct (insert_with (fun _ => loc) (w_ents w1)) as [[k' ents']|] eqn:E2; [|exact HP1]. apply IH. eapply LV_insert; eauto.
+Qed.
+Lemma spawn_all_LV w : LV w -> LV (res_world (spawn_all w)).
+Proof.
+  intros HP. unfold spawn_all. pose proof (spawn_all_n_LV (N.to_nat (w_rcnt w)) w HP) as H.
+  destruct (spawn_all_n (N.to_nat (w_rcnt w)) w) as [[] w1|f w1]; cbn [rbind res_world] in *; [eapply LV_ents; [|exact H]; reflexivity|exact H].
+Qed.
+Lemma builtin_effect_LV kind ev loc w : kind <> KDespawn -> LV w -> LV (res_world (builtin_effect kind ev loc w)).
+Proof.
+  intros Hk HP. destruct kind as [|c|c| |]; cbn [builtin_effect]; [exact HP| | |now apply spawn_all_LV|contradiction].
+  - pose proof (eo_traverse_insert w (fst loc) c) as H1. destruct (traverse_insert w (fst loc) c) as [d w2|f w2]; cbn [rbind res_world] in *; [|eapply LV_eo; eauto].
+    eapply LV_eo; [apply eo_move_entity|eapply LV_eo; eauto].
+  - pose proof (eo_traverse_remove w (fst loc) c) as H1. destruct (traverse_remove w (fst loc) c) as [d w2|f w2]; cbn [rbind res_world] in *; [|eapply LV_eo; eauto].
+    eapply LV_eo; [apply eo_move_entity|eapply LV_eo; eauto].
+Qed.
+
+Variable beh : hinfo -> logent -> N -> script.
+(* the registered kind of the delivered event *)
+Definition item_kind (w : world) (it : qitem) : option ekind :=
+  if qi_targeted it then option_map (fun x => e_kind (snd x)) (get_by_index (w_tev w) (qi_idx it))
+  else option_map (fun x => e_kind (snd x)) (get_by_index (w_gev w) (qi_idx it)).
+
+Theorem live_until_despawned it w : LV w -> item_kind w it <> Some KDespawn -> LV (snd (fst (deliver_one beh it w))).
+Proof.
+  intros HP Hk. unfold deliver_one.
+  assert (Hfin : forall tag kind hl loc, kind <> KDespawn ->
+     LV (snd (fst (let '(w1, ev, sent, taken, fl) := run_handlers beh hl w it tag loc [] in
+              match fl with
+              | Some f => (sent, (if taken then w1 else ev_drop w1 (qi_targeted it) tag ev), Some f)
+              | None => if taken then (sent, w1, None) else
+                  match kind with
+                  | KNormal => (sent, ev_drop w1 (qi_targeted it) tag ev, None)
+                  | _ => let '(w3, f) := fail_of (builtin_effect kind ev loc w1) in (sent, w3, f)
+                  end
+              end)))).
+  { intros tag kind hl loc Hkd. pose proof (r_run_handlers w_ents ltac:(fr) ltac:(fr) ltac:(fr) ltac:(fr) beh hl w it tag loc []) as He.
+    destruct (run_handlers beh hl w it tag loc []) as [[[[w1 ev] sent] taken] fl]. cbn [fst snd] in He.
+    assert (HP1 : LV w1) by (eapply LV_ents; eauto).
+    assert (Hd : forall t0 tg ev0, LV (ev_drop w1 t0 tg ev0)) by (intros; eapply LV_eo; [apply eo_ev_drop|exact HP1]).
+    destruct fl; [destruct taken; cbn [fst snd]; auto|]. destruct taken; [cbn [fst snd]; exact HP1|].
+    destruct kind; try (cbn [fst snd]; apply Hd); try contradiction;
+      match goal with |- context [builtin_effect ?kd ev loc w1] => pose proof (builtin_effect_LV kd ev loc w1 Hkd HP1) as HB; destruct (builtin_effect kd ev loc w1); cbn [fail_of fst snd res_world] in *; exact HB end. }
+  unfold item_kind in Hk. destruct (qi_targeted it).
+  - destruct (get_by_index (w_tev w) (qi_idx it)) as [[k0 info]|]; [|exact HP]. cbn [option_map snd] in Hk.
+    destruct (sm_get (qi_target it) (w_ents w)) as [loc|]; [|cbn [fst snd]; eapply LV_eo; [apply eo_ev_drop|exact HP]].
+    destruct (slab_get (w_archs w) (fst loc)); [apply Hfin; congruence|exact HP].
+  - destruct (get_by_index (w_gev w) (qi_idx it)) as [[k0 info]|]; [|exact HP]. cbn [option_map snd] in Hk.
+    destruct (nget (w_glists w) (qi_idx it)); [apply Hfin; congruence|exact HP].
+Qed.
+End Live.
+
 (* not vacuous, and "from the moment its Spawn event has been delivered", not before: on a map with one live
    entity and one recycled slot, the two ids NextKeyIter promises are neither live nor dead; after the two
    insertions both are live *)
